@@ -117,7 +117,17 @@ func (e *Exec) callWith(fr *frame, st *State, x *ssa.Call, c *ssa.CallCommon, fn
 	case *Closure:
 		return e.callFn(fr, st, c, f.Fn, f.Bindings, args, where)
 	}
-	e.unsupported("call of dynamic function value at %s", where)
+	// a function-typed value of unknown origin (e.g. a parameter): it may do anything to the heap
+	e.trusted("calls through function-typed values of unknown origin havoc the whole heap and return arbitrary values")
+	e.havocAllHeap(st)
+	if e.topCt != nil && e.depth <= 1 {
+		for _, cl := range e.topCt.CallbackInv {
+			if g, ok := e.evalSpec(st, e.topCt.PkgPath, cl.GenFn, e.topArgs, st); ok {
+				e.trusted("callbackinv of " + shortKey(e.topCt.Key) + ": a callback cannot break an invariant over unexported state (it can reach that state only through methods that are verified to preserve it)")
+				e.assume(st, g)
+			}
+		}
+	}
 	return e.freshOf(st, "dyn", resType), true
 }
 
@@ -195,6 +205,8 @@ func (e *Exec) callFn(fr *frame, st *State, c *ssa.CallCommon, fn *ssa.Function,
 			*e.modCollect = append(*e.modCollect, &Ptr{Kind: pModMap, Ref: m, Root: sig.Params().At(0).Type(), Type: sig.Params().At(0).Type()})
 		}
 		return &Tuple{}, true
+	case "vcSameMap":
+		return tEq(e.asTerm(st, args[0], sig.Params().At(0).Type()), e.asTerm(st, args[1], sig.Params().At(1).Type())), true
 	case "vcSameSlice":
 		return tEq(e.asTerm(st, args[0], sig.Params().At(0).Type()), e.asTerm(st, args[1], sig.Params().At(1).Type())), true
 	case "vcElemsOf":
@@ -216,6 +228,17 @@ func (e *Exec) callFn(fr *frame, st *State, c *ssa.CallCommon, fn *ssa.Function,
 	case "vcIte":
 		c0 := e.asTerm(st, args[0], types.Typ[types.Bool])
 		return tIte(c0, e.asTerm(st, args[1], sig.Params().At(1).Type()), e.asTerm(st, args[2], sig.Params().At(2).Type())), true
+	case "vcHas":
+		mt := sig.Params().At(0).Type().Underlying().(*types.Map)
+		m := e.asTerm(st, args[0], sig.Params().At(0).Type())
+		k := e.asTerm(st, args[1], sig.Params().At(1).Type())
+		mc := e.mapComps(mt)
+		dom := tSelect(e.heapComp(st, mc.dom, SInt, arraySort(SInt, mc.domSort)), m, mc.domSort)
+		return tAnd(tNot(tEq(m, tInt(0))), tSelect(dom, k, SBool)), true
+	case "vcIn":
+		sset := e.asTerm(st, args[0], sig.Params().At(0).Type())
+		k := e.asTerm(st, args[1], sig.Params().At(1).Type())
+		return tSelect(sset, k, SBool), true
 	case "vcMapSeq":
 		return e.mapSeq(st, args[0], sig, where), true
 	case "vcByteStr":
@@ -245,8 +268,8 @@ func (e *Exec) callFn(fr *frame, st *State, c *ssa.CallCommon, fn *ssa.Function,
 		return &Tuple{}, true
 	}
 	if fn.Parent() != nil && fn.Blocks != nil {
-		// anonymous function: execute inline
-		rs, out := e.runInline(fn, args, bindings, st, nil)
+		// anonymous function: execute inline (with the loop clauses of its own contract, if any)
+		rs, out := e.runInline(fn, args, bindings, st, e.cs.ByKey[fnKey(fn)])
 		if out == nil {
 			return nil, false
 		}
@@ -486,10 +509,15 @@ func (e *Exec) havocLoc(st *State, p *Ptr) {
 }
 
 func (e *Exec) havocAllHeap(st *State) {
+	// new heap epoch: every component, touched so far or not, becomes unknown
+	e.nepoch++
+	st.epoch = e.nepoch
 	for _, k := range sortedKeys(st.heap) {
-		t := st.heap[k]
-		st.heap[k] = e.smt.fresh("hv."+k, t.Sort)
+		delete(st.heap, k)
 	}
+	na := e.smt.fresh("alloc", SInt)
+	e.assume(st, tLe(st.alloc, na))
+	st.alloc = na
 	e.havocEverything = true
 }
 
@@ -908,9 +936,11 @@ func (e *Exec) quantifier(fr *frame, st *State, forall bool, f Value, where stri
 	if len(trig) > 0 {
 		var ps []string
 		for _, t := range trig {
-			ps = append(ps, t.S)
+			ps = append(ps, cleanTrigger(t.S, bound)...)
 		}
-		pat = " :pattern (" + strings.Join(ps, " ") + ")"
+		if len(ps) > 0 {
+			pat = " :pattern (" + strings.Join(ps, " ") + ")"
+		}
 	}
 	q := "forall"
 	if !forall {
@@ -969,4 +999,59 @@ func (e *Exec) mapSeq(st *State, f Value, sig *types.Signature, where string) Va
 	e.mapSeqs[body.S] = F
 	e.smt.axioms = append(e.smt.axioms, fmt.Sprintf("(assert (forall ((mk!k Int)) (! (= (select %s mk!k) %s) :pattern ((select %s mk!k)))))", F.S, body.S, F.S))
 	return F
+}
+
+// cleanTrigger turns a trigger expression into admissible pattern terms: a term with Boolean
+// connectives or ite (e.g. the translation of vcHas(m, k) or m[k]) is replaced by its innermost
+// select / function applications that mention a bound variable.
+func cleanTrigger(t string, bound []string) []string {
+	bad := func(x string) bool {
+		return strings.Contains(x, "(and ") || strings.Contains(x, "(or ") || strings.Contains(x, "(not ") || strings.Contains(x, "(ite ") || strings.Contains(x, "(=> ") || strings.Contains(x, "(= ") || strings.Contains(x, "(<= ") || strings.Contains(x, "(< ")
+	}
+	if !bad(t) {
+		return []string{t}
+	}
+	var names []string
+	for _, b := range bound {
+		f := strings.Fields(strings.Trim(b, "()"))
+		if len(f) > 0 {
+			names = append(names, f[0])
+		}
+	}
+	mentions := func(x string) bool {
+		for _, n := range names {
+			if strings.Contains(x, n) {
+				return true
+			}
+		}
+		return false
+	}
+	var out []string
+	seen := map[string]bool{}
+	for i := 0; i < len(t); i++ {
+		if t[i] != '(' || !strings.HasPrefix(t[i:], "(select ") {
+			continue
+		}
+		d := 0
+		for j := i; j < len(t); j++ {
+			if t[j] == '(' {
+				d++
+			} else if t[j] == ')' {
+				d--
+				if d == 0 {
+					sub := t[i : j+1]
+					if !bad(sub) && mentions(sub) && !seen[sub] {
+						seen[sub] = true
+						out = append(out, sub)
+					}
+					break
+				}
+			}
+		}
+	}
+	if len(out) > 1 {
+		// keep the smallest one that still mentions all bound variables, else the first
+		return out[:1]
+	}
+	return out
 }
